@@ -372,6 +372,89 @@ def build_path_disc(ctx):
     return _disc(PathDisc(os.path.join(ctx["scratch"], "paths")), inputs=inputs, linearize=False)
 
 
+# entries whose behaviour can depend on the iteration order of sets / dicts of strings (hash seed of the interpreter)
+HASH_SENSITIVE_ENTRIES = ("AnalyticDiscipline", "AnalyticDiscipline:multi", "AutoPyDiscipline", "AutoPyDiscipline:many",
+                          "MDOChain:analytic", "MDAGaussSeidel:analytic", "MDAJacobi:analytic", "MDAChain:analytic",
+                          "JSONGrammar:many", "PydanticGrammar:many", "SimpleGrammar:many", "SimplerGrammar:many",
+                          "RemappingDiscipline", "MDOScenario:MDF", "DesignSpace:mixed", "OptimizationProblem:plain")
+
+MULTI_EXPRESSIONS = {"y": "x1 - 2*x2 + 3*x3**2 + 5*x4**3", "z": "x1/x2", "w": "(x4 - x1)*x2 - x3/x4",
+                     "v": "exp(x1 - x3) + x2*x4**2 - x5"}
+
+
+def build_analytic_multi(ctx):
+    """Several expressions that are not symmetric in their (>= 2) inputs: argument order matters."""
+    obj = _factory().create("AnalyticDiscipline", expressions=dict(MULTI_EXPRESSIONS), name="multi")
+    _with_defaults(obj, {"x1": np.array([1.0]), "x2": np.array([2.0]), "x3": np.array([3.0]), "x4": np.array([4.0]),
+                         "x5": np.array([0.5])})
+    return _disc(obj)
+
+
+def py_func_many(alpha=1.0, beta=2.0, gamma=3.0, delta=4.0, epsilon=5.0, zeta=6.0):
+    out1 = alpha - 2.0 * beta + 3.0 * gamma ** 2 + 5.0 * delta ** 3
+    out2 = alpha / beta - epsilon * zeta ** 2
+    out3 = (zeta - alpha) * gamma
+    return out1, out2, out3
+
+
+def build_auto_py_many(ctx):
+    from gemseo.disciplines.auto_py import AutoPyDiscipline
+
+    return _disc(AutoPyDiscipline(py_func_many), linearize=False)
+
+
+def _analytic_system():
+    f = _factory()
+    d1 = f.create("AnalyticDiscipline", name="A1", expressions={"ya": "0.2*yb - 0.5*xs + 0.3*xa**2 - 0.1*yc", "fa": "xa - 2*ya + xs/4"})
+    d2 = f.create("AnalyticDiscipline", name="A2", expressions={"yb": "0.3*ya + xs - 0.25*xb + 0.05*yc", "fb": "yb/2 - xb**2 + 3*xs"})
+    d3 = f.create("AnalyticDiscipline", name="A3", expressions={"yc": "0.1*ya - 0.2*yb + xs*xc", "fc": "yc - ya/3 + 2*xc - xs**2"})
+    for d in (d1, d2, d3):
+        _with_defaults(d, {n: np.array([0.5]) for n in d.io.input_grammar.names})
+    return [d1, d2, d3]
+
+
+def analytic_system_inputs(rng, k):
+    return {n: np.round(rng.uniform(-1, 1, 1), 3) for n in ("xa", "xb", "xc", "xs")}
+
+
+def build_analytic_process(kind):
+    def build(ctx):
+        discs = _analytic_system()
+        if kind == "MDOChain":
+            from gemseo.core.chains.chain import MDOChain
+
+            def inputs(rng, k):
+                out = analytic_system_inputs(rng, k)
+                out.update({n: np.round(rng.uniform(-1, 1, 1), 3) for n in ("yb", "yc")})
+                return out
+
+            return _disc(MDOChain(discs), inputs=inputs)
+        from gemseo.mda.factory import MDAFactory
+
+        obj = MDAFactory().create(kind, discs, tolerance=1e-12, max_mda_iter=80)
+        return _disc(obj, tol=1e-13, inputs=analytic_system_inputs)
+
+    return build
+
+
+def build_grammar_many(cls_name):
+    def build(ctx):
+        from gemseo.core.grammars.factory import GrammarFactory
+
+        g = GrammarFactory().create(cls_name, name="many")
+        names = ["alpha", "beta", "gamma", "delta", "epsilon", "zeta", "eta", "theta", "iota", "kappa", "lambda_", "mu"]
+        if cls_name == "SimplerGrammar":
+            g.update_from_names(names)
+        else:
+            g.update_from_types({n: (float, np.ndarray, int, str)[k % 4] for k, n in enumerate(names)})
+            for n in names[::3]:
+                g.required_names.discard(n)
+        g.defaults.update({"alpha": 1.5, "beta": np.array([1.0, 2.0])})
+        return dict(kind="grammar", obj=g, tol=0.0)
+
+    return build
+
+
 def build_auto_py(ctx):
     from gemseo.disciplines.auto_py import AutoPyDiscipline
 
@@ -880,7 +963,9 @@ def entries():
     t["Sellar2"] = _simple("Sellar2", n=2)
     t["RosenMF"] = _simple("RosenMF", dimension=3)
     t["AnalyticDiscipline"] = _simple("AnalyticDiscipline", expressions={"y": "2*a+sin(b)*a", "z": "a**2-b"})
+    t["AnalyticDiscipline:multi"] = build_analytic_multi
     t["AutoPyDiscipline"] = build_auto_py
+    t["AutoPyDiscipline:many"] = build_auto_py_many
     t["AutoPyDiscipline:arrays"] = build_auto_py_arrays
     t["ArrayBasedFunctionDiscipline"] = build_array_based
     t["Concatenater"] = build_concatenater
@@ -932,6 +1017,8 @@ def entries():
     # -- chains
     for kind in ("MDOChain", "MDOParallelChain", "MDOAdditiveChain", "MDOWarmStartedChain", "MDOInitializationChain"):
         t[kind] = build_chain(kind, failing=0 if kind in ("MDOChain", "MDOParallelChain", "MDOWarmStartedChain") else None)
+    for kind in ("MDOChain", "MDAGaussSeidel", "MDAJacobi", "MDAChain"):
+        t[f"{kind}:analytic"] = build_analytic_process(kind)
     t["MDOChain:rand"] = build_chain("MDOChain", rand=True)
     t["MDOParallelChain:rand"] = build_chain("MDOParallelChain", rand=True)
     # -- scenarios and adapters
@@ -954,6 +1041,7 @@ def entries():
     for g in ("JSONGrammar", "PydanticGrammar", "SimpleGrammar", "SimplerGrammar"):
         t[f"{g}"] = build_grammar(g)
         t[f"{g}:namespaced"] = build_grammar_namespaced(g)
+        t[f"{g}:many"] = build_grammar_many(g)
     t["SimpleCache"] = build_cache("SimpleCache")
     t["SimpleCache:tolerance"] = build_cache("SimpleCache", tolerance=1e-6)
     t["MemoryFullCache:shared"] = build_cache("MemoryFullCache", is_memory_shared=True)
